@@ -507,7 +507,27 @@ where
         };
         stats::count("steps.mutations", 1);
         let ctx = |what: &str, msg: &str| format!("{what}: {msg} :: mutation #{m} [{}] of a {}-byte proof :: {}", words.join("; "), h.bytes.len(), inst.describe());
-        let decoded = match guard(|| Proof::from_bytes(&bytes)) {
+        // decoding runs under a cap tied to the input length: a single request of more than
+        // 16 MiB + 64 x input bytes while *decoding* is the oversized allocation the property names
+        let cap = decode_cap(bytes.len());
+        let slice_result = simcore::alloc::scoped_cap(cap, || guard(|| Proof::from_bytes(&bytes)));
+        // the same bytes through the streaming adapter over a chunked stream (fault-free chunking:
+        // the stream ends where the bytes end, as a socket or file would)
+        let stream_result = simcore::alloc::scoped_cap(cap, || {
+            let mut sim = SimReader::new(bytes.clone(), false);
+            guard(|| {
+                let mut r = ReadAdapter::new(&mut sim);
+                Proof::read_from(&mut r)
+            })
+        });
+        match (&slice_result, &stream_result) {
+            (_, Err(p)) => fail!("panic", p.site(), "{}", ctx("Proof::read_from(ReadAdapter)", &p.msg)),
+            (Ok(Ok(a)), Ok(Ok(b))) if a != b => fail!("streamed-decode-differs-from-slice-decode", "Proof", "{}", ctx("Proof", "different proofs")),
+            (Ok(Ok(_)), Ok(Err(e))) => fail!("streamed-decode-differs-from-slice-decode", "Proof", "{}", ctx("Proof", &format!("slice decodes, stream fails with {e}"))),
+            _ => {},
+        }
+        stats::count("steps.decoded_through_read_adapter", 1);
+        let decoded = match slice_result {
             Ok(Ok(p)) => p,
             Ok(Err(_)) => {
                 stats::count("outcome.decode_error", 1);
@@ -539,6 +559,11 @@ where
         }
     }
     Ok(())
+}
+
+/// single-allocation cap while decoding `len` untrusted bytes
+fn decode_cap(len: usize) -> usize {
+    (16 << 20) + 64 * len
 }
 
 fn run_c05_components() -> Outcome {
@@ -589,18 +614,32 @@ fn run_c05_components() -> Outcome {
     stats::nontrivial();
     stats::sample(|| format!("{{\"component\":{kind},\"bytes\":\"{}\"}}", hex(&bytes)));
     macro_rules! dec {
-        ($t:ty, $name:expr) => {
-            match guard(|| <$t>::read_from_bytes(&bytes).is_ok()) {
-                Ok(ok) => {
-                    if ok {
+        ($t:ty, $name:expr) => {{
+            let cap = decode_cap(bytes.len());
+            let from_slice = simcore::alloc::scoped_cap(cap, || guard(|| <$t>::read_from_bytes(&bytes).ok().map(|v| v.to_bytes())));
+            // and through the streaming adapter over a chunked stream
+            let from_stream = simcore::alloc::scoped_cap(cap, || {
+                let mut sim = SimReader::new(bytes.clone(), false);
+                guard(|| {
+                    let mut r = ReadAdapter::new(&mut sim);
+                    <$t>::read_from(&mut r).ok().map(|v| v.to_bytes())
+                })
+            });
+            match (from_slice, from_stream) {
+                (Err(p), _) => fail!("panic", p.site(), "decoding {} from {}: {}", $name, hex(&bytes), p.msg),
+                (_, Err(p)) => fail!("panic", p.site(), "decoding {} through ReadAdapter from {}: {}", $name, hex(&bytes), p.msg),
+                (Ok(a), Ok(b)) => {
+                    if a != b {
+                        fail!("streamed-decode-differs-from-slice-decode", $name, "{} from {}: slice {:?} stream {:?}", $name, hex(&bytes), a.map(|x| hex(&x)), b.map(|x| hex(&x)));
+                    }
+                    if a.is_some() {
                         stats::count("outcome.decoded", 1)
                     } else {
                         stats::count("outcome.decode_error", 1)
                     }
                 },
-                Err(p) => fail!("panic", p.site(), "decoding {} from {}: {}", $name, hex(&bytes), p.msg),
             }
-        };
+        }};
     }
     match kind {
         0 => dec!(TraceInfo, "TraceInfo"),
